@@ -174,8 +174,53 @@ def one_pattern(ctx, tr, rng, k, j):
         ctx.sample({'tree': tr.spec, 'pattern': pats, 'flags': fn, 'result': res[:8]})
 
 
+FIXED_TREE = [('f', 'f', None), ('d', 'd', None), ('d/f2', 'f', None), ('d/e', 'd', None), ('d/e/g', 'f', None), ('.h', 'f', None),
+              ('.hd', 'd', None), ('.hd/x', 'f', None), ('ld', 'l', 'd'), ('lf', 'l', 'f'), ('dangling', 'l', 'nowhere'),
+              ('loop', 'l', 'loop'), ('README', 'f', None)]
+FIXED_PATTERNS = ['.', '..', './', '../', '*/.', 'd/..', 'd/.', '.|f', '{.,f}', '**/.', 'd', 'd/', 'f', 'f/', 'dangling', 'dangling/', 'ld', 'ld/',
+                  'ld/*', '', '*', '**', '**/', './f', 'd//f2', 'd/../f', 'README/', 'README/**', 'README//', 'loop', 'loop/', 'lf', 'lf/', 'dangling|f',
+                  '{dangling,loop}', '.h', '.hd', '.hd/', '.*', 'd/e', 'd/e/', 'd/*/', '*/', '*/*', 'd/**', 'ld/**', './.', '.././', 'nope', 'nope/',
+                  'd/./f2', '[d]', '[d]/', '?', 'f|f/', '{d,d/}', './/', 'd///']
+FIXED_FLAGSETS = [(), ('MARK',), ('NODIR',), ('MARK', 'GLOBSTAR'), ('SCANDOTDIR', 'MARK'), ('NODOTDIR',), ('MARK', 'DOTGLOB', 'GLOBSTAR'),
+                  ('GLOBSTAR', 'FOLLOW', 'MARK'), ('NODIR', 'GLOBSTAR', 'DOTGLOB'), ('MARK', 'MATCHBASE'), ('IGNORECASE', 'MARK')]
+
+
+def fixed_patterns(ctx):
+    """Literal starts, `.` / `..`, trailing and doubled separators, dangling and looping links, files named like directories:
+    every pattern x every flag set on one hand-built tree (deterministic part)."""
+    idx = 0
+    todo = []
+    for pat in FIXED_PATTERNS:
+        for fn in FIXED_FLAGSETS:
+            idx += 1
+            if ctx.mine(idx):
+                todo.append((pat, fn))
+    if not todo:
+        return
+    with T.Tree(FIXED_TREE, 'c12f-') as tr:
+        for pat, fn in todo:
+            fl = ['EXTGLOB'] + list(fn)
+            if '|' in pat:
+                fl.append('SPLIT')
+            if '{' in pat:
+                fl.append('BRACE')
+            wit = {'tree': FIXED_TREE, 'pattern': pat, 'flags': fl, 'kw': {}, 'mode': 'fixed'}
+            with ctx.case(timeout=20, label=('fixed', pat, fn)):
+                try:
+                    res = run_modes(ctx, tr, pat, fl, flags_of(fl), {}, wit)
+                except Exception as e:  # noqa: BLE001
+                    ctx.disagree(f'glob raised {type(e).__name__}', dict(wit, exception=repr(e)[:200]))
+                    continue
+                single = '|' not in pat and '{' not in pat
+                check_elements(ctx, tr, res, pat, fl, False, pat.endswith('/'), single, wit)
+                ctx.count('fixed_pattern_cases')
+                if res:
+                    ctx.mark_nontrivial(('fixed', pat, fn))
+
+
 def run(ctx):
     quick = ctx.quick
+    fixed_patterns(ctx)
     k = 0
     limit = 50 if quick else 10 ** 9
     while k < limit and not ctx.out_of_time():
